@@ -42,6 +42,10 @@ CHECKS["C10"] = dict(level="model_checking", design="3/C10",
    technique="TLC exhaustive check of the detection/dispatch specification (Dispatch.tla) + TLC trace validation of detection and pick events under 20 CPUID/XCR0 masks and 4 builds + TLC-checked equality of a 94-function corpus across all 23 configurations",
    text="TLC enumerates every architecturally closed CPUID bit set x every set of OS-enabled state components x 4 builds (19 968 configurations) and checks that the detection function never reports a feature processor+OS lack, that no selected implementation executes an absent feature and that AES-GCM reports itself available only with its hardware; dropping the XCR0 test must violate it. The real library is then started under 20 masks that clear CPUID/XCR0 bits before detection (guarded hook) on the native build plus the noasm, no128 and portable builds: the trace specification requires the reported feature flags to equal Dispatch!Detect of the masked inputs and every pick event to equal Dispatch!Pick (all 23 implementations get selected by some configuration), AES-GCM availability as specified and clean failure in the build without it. A shared corpus (94 function families, boundary lengths, ~3.9k calls quick / 6.8k thorough) runs in each configuration and every (function, case) result and return code must equal the reference configuration's.",
    note="Trusted: TLC; the hook mask can only hide features; the reference configuration's bytes are validated by the owning properties, here only equality. Other architectures are out of reach.")
+CHECKS["C03"] = dict(level="exploration", design="3/C03",
+   technique="TLC-evaluated oracle (ChaCha.tla / Salsa.tla written from the specifications) over recorded executions at every length, every call form, counter windows around 2^32 and 2^64, on every backend",
+   text="For each of 7 variants x 3 call forms x several (key, nonce, initial counter) windows x 6 backend/build configurations the real functions are run at EVERY length 0..2304 with the output ending at a PROT_NONE page; TLC evaluates the keystream of the group once from the specification module and checks every length against it (all bytes at 36 boundary lengths, two position-weighted checksums at every other length), which also decides 'start at counter i = skip 64*i bytes' across the 32-bit carries because the specification's counter is arithmetic in N; IETF probes at the counter limit +-1 must end in the misuse handler exactly when ic + ceil(len/64) > 2^32; HChaCha20/HSalsa20/Salsa20 cores with and without the constant argument are byte-exact. An input sweep with an independent oracle, not a proof.",
+   note="Trusted: TLC; spec modules are anchored on RFC 8439 vectors (ChaCha block, Poly1305) in spec/anchors; at non-boundary lengths only checksums are compared.")
 NOT_YET = {}
 def main():
     props = [json.loads(l) for l in open(os.path.join(HERE, "properties.jsonl"))]
